@@ -205,7 +205,8 @@ def classify(c, o):
 def pair_signature(c, o, msg):
     # DEALER messages accepted before the connection is up sit in pending_outgoing_queue: the
     # processor hands over one per wake-up and direct sends overtake them (C01_dealer_queue_refuted)
-    if dealer_early(c) and ("LOST" in msg or "REORDERED" in msg) \
+    # ... and with a small SNDHWM the next send() waits for room in that queue, which nothing drains: it hangs
+    if dealer_early(c) and ("LOST" in msg or "REORDERED" in msg or "did not complete within" in msg) \
             and "CORRUPTED" not in msg and "DUPLICATED" not in msg:
         return "C01:dealer-pending-queue-stuck-or-overtaken"
     return None
